@@ -107,20 +107,30 @@ Section C08.
     rewrite Hrest. destruct inst as [[]|]; reflexivity.
   Qed.
 
-  (* where the outcome of a call may come from *)
-  Definition allowed (f : fn) (c : call) (bd : body) (r : outcome value) : Prop :=
+  (* where the outcome of a call may come from: a PedanticException, or what the body itself raised *)
+  Definition allowed (bd : body) (r : outcome value) : Prop :=
     match r with
     | Ok _ => True
-    | Raise e => is_pedantic e = true
-                 \/ (exists b cons, bd b cons = Raise e)
-                 \/ (exists pos, py_bind (func_params f) pos (kw_names c) = Raise e)
+    | Raise e => is_pedantic e = true \/ (exists b cons, bd b cons = Raise e)
     end.
 
-  Theorem wrapper_adds_nothing : forall f c bd,
-    machinery_ok f c ->
-    allowed f c bd (fst (run pc check consumes f c bd)).
+  (* the wrapper hands the function the positional objects the undecorated callable would receive *)
+  Definition same_positionals (f : fn) (c : call) : Prop := bound_src f ++ call_pos pc f c = twin_pos c.
+
+  Lemma same_positionals_plain : forall f c,
+    drops_args pc f = false -> f_bound f = None -> c_recv c = c_twin_recv c -> same_positionals f c.
   Proof.
-    intros f c bd Hm. pose proof (fun inst => probe_ok f c inst Hm) as Hprobe0. destruct Hm as [Hinst _].
+    intros f c Hd Hb Hr. unfold same_positionals, bound_src, call_pos, twin_pos, wsrc. now rewrite Hd, Hb, Hr.
+  Qed.
+
+  (* the quantifier of the property: calls that Python itself accepts for the undecorated function *)
+  Definition twin_accepts (f : fn) (c : call) : Prop := exists bt, py_bind (func_params f) (twin_pos c) (kw_names c) = Ok bt.
+
+  Theorem wrapper_adds_nothing : forall f c bd,
+    machinery_ok f c -> same_positionals f c -> twin_accepts f c ->
+    allowed bd (fst (run pc check consumes f c bd)).
+  Proof.
+    intros f c bd Hm Hsame [bt Htwin]. pose proof (fun inst => probe_ok f c inst Hm) as Hprobe0. destruct Hm as [Hinst _].
     unfold run, wrapper_run.
     destruct (instance_of f c) as [inst|e] eqn:Ei.
     2:{ exfalso. unfold instance_of in Ei. destruct (is_instance_method f); [|discriminate].
@@ -137,10 +147,9 @@ Section C08.
     rewrite Hs. cbn [steps].
     pose proof (args_phase_ped f c inst Hprobe astate0) as Ha.
     destruct (args_phase pc check consumes f c inst astate0) as [st|e]; [|cbn; left; exact Ha].
-    unfold invoke. destruct (py_bind (func_params f) (bound_src f ++ call_pos pc f c) (kw_names c)) as [b|e] eqn:Eb.
-    2:{ cbn. right. right. eauto. }
-    destruct (bd b (a_cons st)) as [r|e] eqn:Ebd.
-    2:{ cbn. right. left. eauto. }
+    unfold invoke. unfold same_positionals in Hsame. rewrite Hsame, Htwin.
+    destruct (bd bt (a_cons st)) as [r|e] eqn:Ebd.
+    2:{ cbn. right. eauto. }
     cbn [fst]. unfold ret_value. destruct (f_ret f); [|cbn; left; reflexivity].
     rewrite Hprobe. destruct (check a r (a_tv st)) as [[u2|e] tv'] eqn:Ec; [exact I|].
     cbn. left. eapply check_pedantic; eassumption.
